@@ -294,7 +294,10 @@ func (w *world) answer(slot, name string, serial int) *conformancev1.ClientCompa
 		}
 		resp.Result = &conformancev1.ClientCompatResponse_Response{Response: r}
 	case akClientError:
-		resp.Result = &conformancev1.ClientCompatResponse_Error{Error: &conformancev1.ClientErrorResult{Message: fmt.Sprintf("client error %d", serial)}}
+		// a client error is a failure whatever its text is: also without any
+		// message, or with one that is only white space
+		msg := []string{fmt.Sprintf("client error %d", serial), "", " \r\n\t\n", "\n"}[(serial/3)%4]
+		resp.Result = &conformancev1.ClientCompatResponse_Error{Error: &conformancev1.ClientErrorResult{Message: msg}}
 	}
 	return resp
 }
